@@ -167,7 +167,7 @@ validations:
 
 func C14(e *core.Env) {
 	res := e.Res
-	res.Rule = "cases = (document with generated lexical source maps, node): ranges with magnitudes 0, 1, 9/10, 2^31, 2^53+1, 2^64 and random; 0..3 additional files with 1..3 elements each (a single-element file, a node listed by two files), nodes without any entry, nodes with a property-level entry only, entries whose element is not a node, two source maps for one node, several entries in one source map, no source information at all, two source information nodes, file names with spaces / non-ASCII letters / dot segments / a relative reference / a query, three consecutive units with one root location whose nodes move between the included files; " +
+	res.Rule = "cases = (document with generated lexical source maps, node): ranges with magnitudes 0, 1, 9/10, 2^31, 2^53+1, 2^64 and random; 0..3 additional files with 1..3 elements each (a single-element file, a node listed by two files), nodes without any entry, nodes with a property-level entry only, entries whose element is not a node, two source maps for one node, several entries in one source map, no source information at all, two source information nodes, file names with spaces / non-ASCII letters / dot segments / a relative reference / a query, three consecutive units with one root location whose nodes move between the included files, hierarchical ids (a child's id extends its parent's by a `/` segment) with parents / children listed under different files; " +
 		"the location of every result, sub-result and trace about a node is compared with Lexical.result_location for the document as built; non-trivial = the node has a lexical entry; distinct by (document, node)"
 	magnitudes := []string{"0", "1", "9", "10", "99", "100", "2147483647", "2147483648", "9007199254740993", "18446744073709551616", "123456789012345678901234567890"}
 	pick := func() string {
@@ -225,6 +225,27 @@ func C14(e *core.Env) {
 			additional: []locNode{{"file:///api/lib/types.raml", els[0]}, {"file:///api/lib/traits.raml", els[1]}}}
 	}
 	cases = append(cases, moved([][]string{{NodeID(1)}, {NodeID(2)}}), moved([][]string{{NodeID(2), NodeID(3)}, {NodeID(0)}}), moved([][]string{{NodeID(1)}, {NodeID(2)}}))
+	// hierarchical ids (the id of a child extends the id of its parent with a `/` segment, as AMF writes them): a parent listed
+	// under an included file, its children declared in the root file (an overlay adding members to an element it extends)
+	{
+		hid := []string{DataNS + "api", DataNS + "api/endpoint", DataNS + "api/endpoint/get", DataNS + "api/endpoint/get/response", DataNS + "api/other", DataNS + "api/endpoint/get/response/payload"}
+		hg := Graph{}
+		for i, id := range hid {
+			node := GNode{ID: id, Types: []string{ExNS + "T"}}
+			if i+1 < len(hid) {
+				node.Props = append(node.Props, GProp{Iri: ExNS + "kid", Vals: []GVal{VR(hid[i+1])}})
+			}
+			hg.Nodes = append(hg.Nodes, node)
+		}
+		sm := []lexEntry{}
+		for i, id := range hid {
+			sm = append(sm, lexEntry{id, rng(fmt.Sprint(10+i), "2", fmt.Sprint(10+i), "40")})
+		}
+		cases = append(cases,
+			lexCase{g: hg, root: &root, sourceMaps: [][]lexEntry{sm}, additional: []locNode{{"file:///api/lib/base.raml", []string{hid[1]}}}},
+			lexCase{g: hg, root: &root, sourceMaps: [][]lexEntry{sm}, additional: []locNode{{"file:///api/lib/base.raml", []string{hid[0]}}, {"file:///api/lib/response.raml", []string{hid[3]}}}},
+			lexCase{g: hg, root: &root, sourceMaps: [][]lexEntry{sm[2:]}, additional: []locNode{{"file:///api/lib/deep.raml", []string{hid[5], hid[2]}}}})
+	}
 	for i := 0; i < e.Pick(25, 300); i++ {
 		n := 3 + e.Rand.Intn(6)
 		c := lexCase{g: mkGraph(n)}
